@@ -63,6 +63,8 @@ def dispatch_oracle(ix: Index, scn: dict) -> list[Violation]:
     active: dict = {}
     cur: dict | None = None  # the dispatch in progress
 
+    session: dict = {}
+
     def close_dispatch() -> None:
         nonlocal cur
         if cur is None:
@@ -91,6 +93,13 @@ def dispatch_oracle(ix: Index, scn: dict) -> list[Violation]:
             out.append(Violation("valid-message-closed", d["fatals"][0]["cls"], f"delivery of a well-formed {name} (turn {d['turn']}) ended the session with {d['fatals'][0]['cls']}: {d['fatals'][0]['text'][:120]}"))
         elif d.get("loop_exc") and not d.get("excused") and not d.get("in_cb_close"):
             out.append(Violation("valid-message-closed", "escaped:" + str(d["loop_exc"].get("exc")), f"delivery of a well-formed {name} (turn {d['turn']}) let {d['loop_exc'].get('exc')}: {str(d['loop_exc'].get('text'))[:120]} escape from data_received"))
+        holes = [sid for sid, _c, _d in d["cbs"] if sid in session.get("missed_after_raise", ())]
+        if holes:
+            out.append(Violation("delivery-hole", "", f"{holes[0]} missed the message during whose delivery another subscriber raised, yet it received the later {name} (turn {d['turn']}): its stream has a hole"))
+            session["missed_after_raise"] = set()
+        if d.get("raised"):
+            got = {sid for sid, _c, _d in d["cbs"]}
+            session["missed_after_raise"] = {sid for sid in d["snapshot"] if sid not in got}
         counts: dict = {}
         for sid, cname, data in d["cbs"]:
             counts[sid] = counts.get(sid, 0) + 1
@@ -100,6 +109,8 @@ def dispatch_oracle(ix: Index, scn: dict) -> list[Violation]:
             n = counts.get(sid, 0)
             # a subscriber unsubscribed by another callback during this very delivery was registered
             # when the message arrived: the current delivery must not be disturbed, it still gets it
+            if n == 0 and d.get("raised"):
+                continue  # the delivery was ended by a raising subscriber in front of this one
             if n != 1:
                 out.append(Violation("not-exactly-once", ("missed" if n == 0 else "dup") + (":unsubscribed-during-delivery" if sid in d["removed"] else ""), f"{sid} was registered for {name} when it arrived (turn {d['turn']}) but received it {n}x"))
         for sid, n in counts.items():
@@ -182,6 +193,8 @@ def dispatch_oracle(ix: Index, scn: dict) -> list[Violation]:
         elif kind in ("cb_raise", "tr_write_raised"):
             if cur is not None:
                 cur["excused"] = True
+                if kind == "cb_raise":
+                    cur["raised"] = True
         elif kind == "cb_force_disconnect":
             if cur is not None:
                 cur["in_cb_close"] = True
@@ -273,6 +286,10 @@ def gen_dispatch(rng: random.Random) -> dict:
             elif r < 0.78:
                 # closes the session from inside the callback: the delivery in progress still reaches everyone registered
                 beh.append({"on_call": n, "do": "force_disconnect"})
+            elif r < 0.84:
+                # an application bug: the callback raises. That delivery and the session end there - the subscribers behind
+                # it get a stream that is cut short, never one with a hole
+                beh.append({"on_call": n, "do": "raise"})
             else:
                 beh.append({"on_call": n, "do": "add", "new": {"sid": sid + "x", "types": rng.sample(SUB_TYPES, rng.randint(1, 2))}})
         specs[sid] = (types, beh)
